@@ -125,6 +125,7 @@ func toOptions(in []ent) message.Options {
 // ids of the alphabet: ETag 4, Location-Path 8, Uri-Path 11, Content-Format 12, Uri-Query 15
 // and an unregistered high number; Observe 6 and Accept 17 enter through the typed setters.
 var alphaIDs = []uint16{4, 8, 11, 12, 15, 2000}
+var miniIDs = []uint16{4, 11, 15, 2000}
 
 // ids probed after every step (the alphabet's ids, the typed setters' ids and both ends).
 var queryIDs = []message.OptionID{0, 4, 6, 8, 11, 12, 15, 17, 2000, 65535}
@@ -136,17 +137,35 @@ var corePaths = []string{"", "/", "/a//b/", "/{255}", "/{256}", "/{255}/{255}/c"
 // core: every structural operation on every id with a short value; the buffer-copying and typed
 // variants on a selection of (id, length) pairs that keeps each id and each length present.
 // wide: the full product operation x id x value length (explored to a smaller depth).
-func optionsAlphabet(wide bool) []Op {
+// mini: the structural operations on four ids (first, Uri-Path, Uri-Query, last) and one
+// representative of every other operation and of every length class (explored one step deeper).
+func optionsAlphabet(level string) []Op {
 	var a []Op
+	wide := level == "wide"
+	ids := alphaIDs
+	if level == "mini" {
+		ids = miniIDs
+	}
 	for _, k := range []string{"Set", "Add"} {
-		for _, id := range alphaIDs {
+		for _, id := range ids {
 			a = append(a, Op{K: k, ID: id, V: "S"})
 		}
 	}
-	for _, id := range alphaIDs {
+	for _, id := range ids {
 		a = append(a, Op{K: "Remove", ID: id})
 	}
-	if wide {
+	if level == "mini" {
+		a = append(a,
+			Op{K: "SetBytes", ID: 11, V: "X"}, Op{K: "AddBytes", ID: 11, V: "M"}, Op{K: "AddBytes", ID: 2000, V: "L"},
+			Op{K: "SetString", ID: 15, V: "L"}, Op{K: "AddString", ID: 4, V: "E"},
+			Op{K: "SetUint32", ID: 12, U: 0x100}, Op{K: "AddUint32", ID: 12, U: 0},
+			Op{K: "SetContentFormat", U: 0xfff0}, Op{K: "SetObserve", U: 0xfffff0},
+		)
+		for _, p := range []string{"", "/", "/a//b/", "/{256}", "/{255}/{255}/c"} {
+			a = append(a, Op{K: "SetPath", P: p})
+		}
+		a = append(a, Op{K: "SetLocationPath", P: "/a/b"}, Op{K: "SetLocationPath", P: "/{256}/a"})
+	} else if wide {
 		for _, k := range []string{"Set", "Add"} {
 			for _, id := range alphaIDs {
 				for _, v := range []string{"E", "M", "X", "L"} {
@@ -179,19 +198,19 @@ func optionsAlphabet(wide bool) []Op {
 		}
 	} else {
 		a = append(a,
-			Op{K: "SetBytes", ID: 11, V: "X"}, Op{K: "SetBytes", ID: 4, V: "L"}, Op{K: "SetBytes", ID: 2000, V: "M"}, Op{K: "SetBytes", ID: 15, V: "E"},
-			Op{K: "AddBytes", ID: 11, V: "M"}, Op{K: "AddBytes", ID: 11, V: "X"}, Op{K: "AddBytes", ID: 4, V: "E"}, Op{K: "AddBytes", ID: 2000, V: "L"}, Op{K: "AddBytes", ID: 15, V: "S"},
-			Op{K: "SetString", ID: 8, V: "S"}, Op{K: "SetString", ID: 11, V: "S"}, Op{K: "SetString", ID: 15, V: "L"},
-			Op{K: "AddString", ID: 8, V: "E"}, Op{K: "AddString", ID: 11, V: "S"}, Op{K: "AddString", ID: 15, V: "M"}, Op{K: "AddString", ID: 2000, V: "S"},
+			Op{K: "SetBytes", ID: 11, V: "X"}, Op{K: "SetBytes", ID: 4, V: "L"}, Op{K: "SetBytes", ID: 2000, V: "M"},
+			Op{K: "AddBytes", ID: 11, V: "M"}, Op{K: "AddBytes", ID: 4, V: "E"}, Op{K: "AddBytes", ID: 2000, V: "L"},
+			Op{K: "SetString", ID: 8, V: "S"}, Op{K: "SetString", ID: 15, V: "L"},
+			Op{K: "AddString", ID: 8, V: "E"}, Op{K: "AddString", ID: 11, V: "S"}, Op{K: "AddString", ID: 15, V: "M"},
 			Op{K: "SetUint32", ID: 12, U: 0}, Op{K: "SetUint32", ID: 2000, U: 0x100},
-			Op{K: "AddUint32", ID: 12, U: 0x100}, Op{K: "AddUint32", ID: 4, U: 0},
-			Op{K: "SetContentFormat", U: 0}, Op{K: "SetContentFormat", U: 0xfff0},
+			Op{K: "AddUint32", ID: 12, U: 0x100},
+			Op{K: "SetContentFormat", U: 0xfff0},
 			Op{K: "SetObserve", U: 0xfffff0}, Op{K: "SetAccept", U: 50},
 		)
 		for _, p := range corePaths {
 			a = append(a, Op{K: "SetPath", P: p})
 		}
-		for _, p := range []string{"/", "/a/b", "/{256}/a"} {
+		for _, p := range []string{"/a/b", "/{256}/a"} {
 			a = append(a, Op{K: "SetLocationPath", P: p})
 		}
 	}
@@ -205,12 +224,30 @@ func optionsAlphabet(wide bool) []Op {
 }
 
 // poolAlphabet: operations on the pool.Message builder.
-func poolAlphabet(wide bool) []Op {
+func poolAlphabet(level string) []Op {
 	var a []Op
-	for _, id := range alphaIDs {
+	wide := level == "wide"
+	ids := alphaIDs
+	if level == "mini" {
+		ids = miniIDs
+	}
+	for _, id := range ids {
 		a = append(a, Op{K: "Remove", ID: id})
 	}
-	if wide {
+	if level == "mini" {
+		for _, id := range ids {
+			a = append(a, Op{K: "SetBytes", ID: id, V: "S"}, Op{K: "AddBytes", ID: id, V: "S"})
+		}
+		a = append(a,
+			Op{K: "SetBytes", ID: 11, V: "X"}, Op{K: "AddBytes", ID: 2000, V: "L"}, Op{K: "AddBytes", ID: 11, V: "M"},
+			Op{K: "SetString", ID: 15, V: "L"}, Op{K: "AddString", ID: 4, V: "E"}, Op{K: "AddString", ID: 11, V: "X"},
+			Op{K: "SetUint32", ID: 12, U: 0x100}, Op{K: "AddUint32", ID: 12, U: 0}, Op{K: "SetObserve", U: 0xfffff0},
+			Op{K: "SetETag", V: "B8"}, Op{K: "AddETag", V: "B9"},
+		)
+		for _, p := range []string{"", "/", "/a//b/", "/{256}", "/{255}/{255}/c"} {
+			a = append(a, Op{K: "SetPath", P: p})
+		}
+	} else if wide {
 		for _, k := range []string{"SetBytes", "AddBytes", "SetString", "AddString"} {
 			for _, id := range alphaIDs {
 				for _, v := range []string{"E", "S", "M", "X", "L"} {
@@ -246,14 +283,14 @@ func poolAlphabet(wide bool) []Op {
 			a = append(a, Op{K: "SetBytes", ID: id, V: "S"}, Op{K: "AddBytes", ID: id, V: "S"})
 		}
 		a = append(a,
-			Op{K: "SetBytes", ID: 11, V: "X"}, Op{K: "SetBytes", ID: 4, V: "L"}, Op{K: "SetBytes", ID: 2000, V: "M"}, Op{K: "SetBytes", ID: 15, V: "E"},
-			Op{K: "AddBytes", ID: 11, V: "M"}, Op{K: "AddBytes", ID: 4, V: "E"}, Op{K: "AddBytes", ID: 2000, V: "L"}, Op{K: "AddBytes", ID: 15, V: "X"},
-			Op{K: "SetString", ID: 8, V: "S"}, Op{K: "SetString", ID: 11, V: "X"}, Op{K: "SetString", ID: 15, V: "L"}, Op{K: "SetString", ID: 2000, V: "M"},
-			Op{K: "AddString", ID: 8, V: "E"}, Op{K: "AddString", ID: 11, V: "S"}, Op{K: "AddString", ID: 15, V: "M"}, Op{K: "AddString", ID: 4, V: "L"},
+			Op{K: "SetBytes", ID: 11, V: "X"}, Op{K: "SetBytes", ID: 4, V: "L"},
+			Op{K: "AddBytes", ID: 11, V: "M"}, Op{K: "AddBytes", ID: 2000, V: "L"}, Op{K: "AddBytes", ID: 15, V: "X"},
+			Op{K: "SetString", ID: 11, V: "X"}, Op{K: "SetString", ID: 15, V: "L"},
+			Op{K: "AddString", ID: 8, V: "E"}, Op{K: "AddString", ID: 11, V: "S"}, Op{K: "AddString", ID: 4, V: "L"},
 			Op{K: "SetUint32", ID: 12, U: 0}, Op{K: "SetUint32", ID: 2000, U: 0x100},
-			Op{K: "AddUint32", ID: 12, U: 0x100}, Op{K: "AddUint32", ID: 4, U: 0},
+			Op{K: "AddUint32", ID: 12, U: 0x100},
 			Op{K: "SetContentFormat", U: 0xfff0}, Op{K: "SetObserve", U: 0xfffff0}, Op{K: "SetAccept", U: 50},
-			Op{K: "AddQuery", V: "S"}, Op{K: "SetETag", V: "B8"}, Op{K: "AddETag", V: "B9"}, Op{K: "AddETag", V: "S"},
+			Op{K: "AddQuery", V: "S"}, Op{K: "SetETag", V: "B8"}, Op{K: "AddETag", V: "B9"},
 		)
 		for _, p := range corePaths {
 			a = append(a, Op{K: "SetPath", P: p})
